@@ -29,6 +29,9 @@ TRUSTED = [
 ]
 
 USER = b"Pair-Setup"
+# functions of hsrp.Server that are compared one by one when the class has them (see impl_numeric)
+OPTIONAL_FUNCS = {"_get_private_key", "_get_verifier", "_get_k", "_derive_B", "get_challenge", "_get_K", "_get_M",
+                  "_get_HAMK", "get_session_key", "get_session_key_bytes", "_padN_A", "_padN_B"}
 
 # pre-computed forced vectors (found once by rejection sampling on b with ref/srp_client.py):
 # kind K0: SHA-512(S) begins with a zero byte; S0 / A0 / B0: that value is shorter than 384 bytes
@@ -237,21 +240,29 @@ def impl_numeric(code: bytes, salt: bytes, b: int, A: bytes, M: Optional[bytes])
             "u": hx(ref.i2b(srv.u)), "S": hx(ref.i2b(srv.S)), "K": hx(ref.i2b(srv.get_session_key())),
             "Kb": hx(srv.Kb), "M": hx(srv.M), "HAMK": hx(srv.HAMK),
         }
-        # every remaining function of hsrp.Server, called on its own on the real object
-        ch = srv.get_challenge()
-        out.update({
-            "_get_private_key": hx(ref.i2b(srv._get_private_key())),
-            "_get_verifier": hx(ref.i2b(srv._get_verifier())),
-            "_get_k": hx(ref.i2b(srv._get_k())),
-            "_derive_B": hx(ref.i2b(srv._derive_B())),
-            "get_challenge": [hx(ch[0]), hx(ref.i2b(ch[1]))],
-            "_padN_A": hx(srv._padN(A)), "_padN_B": hx(srv._padN(srv.Bb)),
-            "_get_K": hx(ref.i2b(srv._get_K())),
-            "_get_M": hx(srv._get_M()),
-            "_get_HAMK": hx(srv._get_HAMK()),
-            "get_session_key": hx(ref.i2b(srv.get_session_key())),
-            "get_session_key_bytes": hx(srv.get_session_key_bytes()),
-        })
+        # every remaining function of hsrp.Server, called on its own on the real object — where it exists: private
+        # helpers may be inlined or renamed by a behaviour-preserving change, so each is compared only if present
+        opt = {
+            "_get_private_key": lambda f: hx(ref.i2b(f())),
+            "_get_verifier": lambda f: hx(ref.i2b(f())),
+            "_get_k": lambda f: hx(ref.i2b(f())),
+            "_derive_B": lambda f: hx(ref.i2b(f())),
+            "get_challenge": lambda f: [hx(f()[0]), hx(ref.i2b(f()[1]))],
+            "_get_K": lambda f: hx(ref.i2b(f())),
+            "_get_M": lambda f: hx(f()),
+            "_get_HAMK": lambda f: hx(f()),
+            "get_session_key": lambda f: hx(ref.i2b(f())),
+            "get_session_key_bytes": lambda f: hx(f()),
+        }
+        for name, view in opt.items():
+            f = getattr(srv, name, None)
+            if callable(f):
+                try:
+                    out[name] = view(f)
+                except Exception as ex:  # noqa: BLE001
+                    out[name] = {"raises": type(ex).__name__}
+        if callable(getattr(srv, "_padN", None)):
+            out["_padN_A"], out["_padN_B"] = hx(srv._padN(A)), hx(srv._padN(srv.Bb))
         if M is not None:
             r = srv.verify(M)
             out["verify"] = None if r is None else hx(r)
@@ -641,6 +652,8 @@ def run(ctx: Ctx):
     for ln, m, i, tag in zip(lines, model, impl, tags):
         st.traces_validated += 1
         mv = pe.model_view(m) if tag[0] == "exchange" else m
+        if tag[0] == "numeric" and isinstance(i, dict) and "err" not in i and isinstance(m, dict):
+            mv = {k: v for k, v in m.items() if k in i or k not in OPTIONAL_FUNCS}
         if mv != i:
             ctx.disagree(tag[0], {"tag": tag, "line": pe.short(json.dumps(ln), 400)}, _diff(mv, i), "see model")
 
